@@ -62,7 +62,8 @@ fn ws(r: &mut Rng, out: &mut Vec<u8>, rich: bool) {
         return;
     }
     const W: [&[u8]; 10] = [b" ", b"\n", b"\r\n", b"\r", b"\t", b"  ", b"\n\n", b"\r\r\n", b"\n\r", b" \n "];
-    out.extend_from_slice(r.pick(&W));
+    let w: &[u8] = *r.pick(&W[..]);
+    out.extend_from_slice(w);
 }
 
 fn gen_string(r: &mut Rng, out: &mut Vec<u8>) {
